@@ -538,6 +538,14 @@ def render_unit(r, bodies, prefix="m"):
         nm = "%s%04d" % (prefix, i)
         names.append(nm)
         parts.append(r.method(nm, b) + "\n")
+    # the first method of every C-like unit is parameterless and starts with a do-while (state shared between the analyses of successive methods shows
+    # up in the methods that follow it); it is not judged itself
+    if "dowhile" in r.kinds and r.name != "go":
+        pre = r.method("zz_pre", [("dowhile", [("s",)])])
+        head = pre.split("\n", 1)[0]
+        pre = pre.replace(head, head[:head.index("(")] + "() {", 1)
+        glob = {"java": "    static int c;\n", "c": "int c;\n"}.get(r.name, "")
+        parts.insert(0, glob + pre + "\n")
     text = r.wrap(parts) if hasattr(r, "wrap") else "".join(parts)
     return text, names
 
